@@ -44,6 +44,8 @@ def main():
     items = []
     if a.seeded:
         for d in sorted(glob.glob(os.path.join(VERIF, "seeded", "*"))):
+            if not os.path.exists(os.path.join(d, "meta.json")):
+                continue
             meta = json.load(open(os.path.join(d, "meta.json")))
             items.append((os.path.join(d, "patch.diff"), meta["property"]))
     else:
